@@ -65,6 +65,22 @@ Proof. exact orig_refuted_no_output. Qed.
 Theorem C12_orig_refuted_cycle : on_cycle g_two_cycle 0 /\ (forall fuel, build_orig fuel (mk_defs [] g_two_cycle) = Diverge) /\ (forall fuel, evaluate_orig fuel (mk_defs [] g_two_cycle) 0 = Diverge)
   /\ (forall fuel, build fuel (mk_defs [] g_two_cycle) = Err).
 Proof. exact orig_refuted_cycle. Qed.
+(* ---- item definitions are trees: the collection of type references reaches a reference at ANY nesting depth (and nothing else), so such a
+        reference is an edge of the graph the cycle search runs on; a self reference through a chain of components of any depth is a cycle of it;
+        a flat collection (definition + direct components) is refuted; the search finds the cycle for chains of depth 0..6 (finite sweep) *)
+Theorem C12_collect_refs_complete : forall t x, occurs x t <-> In x (collect_refs t).
+Proof. exact collect_refs_complete. Qed.
+Theorem C12_nested_reference_is_edge : forall t rest x, occurs x t ->
+  exists ts, targets (item_graph (t :: rest)) (item_name t) = Some ts /\ In x ts.
+Proof. exact nested_reference_is_edge. Qed.
+Theorem C12_nested_self_reference_cycle : forall d n cs rest, on_cycle (item_graph (ItemDef n None (nested d n :: cs) :: rest)) n.
+Proof. exact nested_self_reference_cycle. Qed.
+Theorem C12_flat_refs_refuted : exists t x, occurs x t /\ ~ In x (flat_refs t) /\ In x (collect_refs t).
+Proof. exact flat_refs_refuted. Qed.
+Theorem C12_nested_cycle_found_upto_6 :
+  forallb (fun d => match has_cycle (item_graph [ItemDef 5 None [nested d 5]]) with Cycle => true | _ => false end) (seq 0 7) = true.
+Proof. exact nested_cycle_found_upto_6. Qed.
+
 Print Assumptions C12_table_build_total.
 Print Assumptions C12_table_build_ok_iff.
 Print Assumptions C12_table_eval_total.
@@ -80,3 +96,8 @@ Print Assumptions C12_table_build_orig_crash_iff.
 Print Assumptions C12_orig_refuted_short_rule.
 Print Assumptions C12_orig_refuted_no_output.
 Print Assumptions C12_orig_refuted_cycle.
+Print Assumptions C12_collect_refs_complete.
+Print Assumptions C12_nested_reference_is_edge.
+Print Assumptions C12_nested_self_reference_cycle.
+Print Assumptions C12_flat_refs_refuted.
+Print Assumptions C12_nested_cycle_found_upto_6.
